@@ -44,6 +44,15 @@ def correspondence(rep, ctx):
         if not ok:
             bad.append((what, detail))
 
+    # every decay-chain diagram is drawn first (a pure read of the dataset): the dataset the library hands out must still be
+    # the data of the files afterwards
+    try:
+        import networkx as _nx
+        for nm_ in dd.nuclides:
+            rd.nuclide._build_decay_digraph(rd.Nuclide(str(nm_)), _nx.DiGraph())
+        rep.dist("diagrams-drawn-before-comparison", len(dd.nuclides))
+    except Exception as e:  # noqa: BLE001
+        rep.violation("failing-input", f"building the decay-chain diagram of {nm_} raised {type(e).__name__}: {e}", {"call": "diagram", "root": str(nm_)}, True)
     sd = dd.scipy_data
     for nm, m, ref in (("c_scipy", sd.matrix_c, cf), ("c_inv_scipy", sd.matrix_c_inv, cif)):
         m = m.tocsr()
